@@ -96,7 +96,8 @@ REPLAY = {'validations': replay_validations}
 def check_c13(ctx):
     vlib.build_worker(ctx)
     rep = vlib.Report(ctx)
-    maxsegs, maxprog = (3, 3) if ctx.tier == 'thorough' else (2, 2)
+    # (three segments over the 8-letter alphabet are 9.4 M conversions: the thorough tier deepens the programs instead)
+    maxsegs, maxprog = (2, 3) if ctx.tier == 'thorough' else (2, 2)
     refs, progs = ctx.path('refs.ndjson'), ctx.path('refprogs.ndjson')
     cfg = ('CONSTANTS\nMaxSegs = %d\nMaxProg = %d\nOutFile = "%s"\nProgFile = "%s"\nSPECIFICATION Spec\n'
            'INVARIANTS C13_Idempotent C13_Canonical C13_FlagsOfCanon\nPROPERTY C13_Stable\n' % (maxsegs, maxprog, refs, progs))
